@@ -16,7 +16,7 @@ COQ = os.path.join(VERIF, "coq")
 GEN = os.path.join(COQ, "gen")
 TARGET = os.path.join(BUILD, "target")
 HOOK_CFG = "varlink_rust_verif"
-HOOK_BINS = set()  # harness bins that need the cfg hooks in /repo
+HOOK_BINS = {"h_pool"}  # harness bins that need the cfg hooks in /repo
 
 os.makedirs(BUILD, exist_ok=True)
 
@@ -70,6 +70,7 @@ TRANSLATORS = {
     # gen file : (script, [source paths relative to /repo])
     "WireGen.v": ("tr/wire.py", ["varlink/src/lib.rs"]),
     "SetGen.v": ("tr/set.py", ["varlink/src/lib.rs"]),
+    "PoolGen.v": ("tr/pool.py", ["varlink/src/server.rs"]),
 }
 
 
